@@ -1,3 +1,5 @@
+import threading
+
 from excel2pycl.src.cell import Cell
 from excel2pycl.src.exceptions import E2PyclParserException
 from excel2pycl.src.tokens.base_token import BaseToken
@@ -6,6 +8,10 @@ from excel2pycl.src.tokens.base_token import BaseToken
 class CompositeBaseToken(BaseToken):
     _TOKEN_SETS = []
     _PROCESSED = False
+    # Results of get() within one AstBuilder.parse call, keyed by (token class, number of remaining tokens):
+    # every call works on a suffix of the same token list, so without it each alternative re-parses the same
+    # span and the parsing time grows exponentially with the nesting depth
+    _MEMO = threading.local()
 
     @classmethod
     def add_token_set(cls, tokens: list):
@@ -17,6 +23,17 @@ class CompositeBaseToken(BaseToken):
 
     @classmethod
     def get(cls, expression: list, in_cell: Cell):
+        memo = getattr(CompositeBaseToken._MEMO, 'table', None)
+        if memo is None:
+            return cls._get(expression, in_cell)
+
+        key = (cls, len(expression))
+        if key not in memo:
+            memo[key] = cls._get(expression, in_cell)
+        return memo[key]
+
+    @classmethod
+    def _get(cls, expression: list, in_cell: Cell):
         control_construction_flag = False
         for tokens in cls.get_token_sets():
             new_expression_part = []
